@@ -345,6 +345,32 @@ func ruleQueryReadOnly(c *Ctx, rule string, builders map[string]bool) {
 			mark(fn)
 		}
 	}
+	// an unexported helper that only builders call (a step of Build written as a method) builds too
+	for changed := true; changed; {
+		changed = false
+		for _, fn := range srcFuncs(sp) {
+			if fn.Parent() != nil || building[fn] || fn.Object() == nil || fn.Object().Exported() {
+				continue
+			}
+			callers, all := 0, true
+			for _, g := range srcFuncs(sp) {
+				for _, b := range g.Blocks {
+					for _, ins := range b.Instrs {
+						if ci, ok := ins.(ssa.CallInstruction); ok && ci.Common().StaticCallee() == fn {
+							callers++
+							if !building[g] {
+								all = false
+							}
+						}
+					}
+				}
+			}
+			if callers > 0 && all {
+				mark(fn)
+				changed = true
+			}
+		}
+	}
 	n := 0
 	for _, fn := range srcFuncs(sp) {
 		root := fn
@@ -1376,29 +1402,69 @@ func ruleRegionForward(c *Ctx, rule string) {
 	pkg := modPath + "/feat/gene"
 	sp := c.SPkgs[c.pkg("feat/gene").PkgPath]
 	n := 0
+	// per exported region method (UTR5, CDS, UTR3, ...): every TranscriptFeature built by the method or the
+	// private helpers it reaches is oriented Forward
 	for _, fn := range srcFuncs(sp) {
-		if fn.Signature.Recv() == nil || !isNamed(fn.Signature.Recv().Type(), pkg, "CodingTranscript") {
+		if fn.Parent() != nil || fn.Signature.Recv() == nil || !isNamed(fn.Signature.Recv().Type(), pkg, "CodingTranscript") {
 			continue
 		}
-		for _, b := range fn.Blocks {
-			for _, ins := range b.Instrs {
-				st, ok := ins.(*ssa.Store)
-				if !ok {
-					continue
-				}
-				name, ok := fieldOf(st.Addr, pkg, "TranscriptFeature")
-				if !ok || name != "Orient" {
-					continue
-				}
-				n++
-				c.Funcs[funcName(fn)] = true
-				key := fmt.Sprintf("%s/region-orientation#%d", funcName(fn), n)
-				if k, isK := constIntVal(st.Val); isK && k == 1 {
-					c.ok(rule, key, st.Pos(), "the region is oriented Forward relative to its transcript")
-				} else {
-					c.bad(rule, key, st.Pos(), "a UTR/CDS region of a transcript is given an orientation that is not the constant Forward: the region's Location is the transcript, so its orientation is relative to the transcript, and copying the transcript's own orientation applies it twice — for a transcript on the reverse strand BaseOrientationOf(region) comes out Forward")
+		if fn.Object() == nil || !fn.Object().Exported() {
+			continue
+		}
+		var stores []*ssa.Store
+		for _, g := range privateReach(fn) {
+			if g.Pkg != sp {
+				continue
+			}
+			for _, b := range g.Blocks {
+				for _, ins := range b.Instrs {
+					st, ok := ins.(*ssa.Store)
+					if !ok {
+						continue
+					}
+					if name, ok := fieldOf(st.Addr, pkg, "TranscriptFeature"); ok && name == "Orient" {
+						stores = append(stores, st)
+					}
 				}
 			}
+		}
+		if len(stores) == 0 {
+			continue
+		}
+		n++
+		c.Funcs[funcName(fn)] = true
+		key := funcName(fn) + "/region-orientation"
+		var bad *ssa.Store
+		for _, st := range stores {
+			v := callerArg(st.Val, fn)
+			if k, isK := constIntVal(v); !isK || k != 1 {
+				// a helper called from several places: every argument it is given
+				if prm, ok := v.(*ssa.Parameter); ok && prm.Parent() != fn {
+					allFwd, sites := true, 0
+					pi := paramIndex(prm.Parent(), prm)
+					for _, g := range privateReach(fn) {
+						for _, b := range g.Blocks {
+							for _, ins := range b.Instrs {
+								if ci, ok := ins.(ssa.CallInstruction); ok && ci.Common().StaticCallee() == prm.Parent() && pi >= 0 && pi < len(ci.Common().Args) {
+									sites++
+									if k, isK := constIntVal(ci.Common().Args[pi]); !isK || k != 1 {
+										allFwd = false
+									}
+								}
+							}
+						}
+					}
+					if sites > 0 && allFwd {
+						continue
+					}
+				}
+				bad = st
+			}
+		}
+		if bad == nil {
+			c.ok(rule, key, fn.Pos(), "the region is oriented Forward relative to its transcript")
+		} else {
+			c.bad(rule, key, bad.Pos(), "a UTR/CDS region of a transcript is given an orientation that is not the constant Forward: the region's Location is the transcript, so its orientation is relative to the transcript, and copying the transcript's own orientation applies it twice — for a transcript on the reverse strand BaseOrientationOf(region) comes out Forward")
 		}
 	}
 	if n == 0 {
